@@ -795,11 +795,66 @@ func c09W6(l *core.Ledger, r *rt) {
 // stream broken: the next request then asks for the stream write lock while
 // the reader is parked on that healthy stream.
 func c09W8(l *core.Ledger, f *ssa.Function, nd sx.Node, c *ssa.Call, key string) {
-	for _, h := range sx.AnalyzeLocks(f).HeldAt(nd) {
-		if h.Field == "streamMut" {
+	ls := sx.AnalyzeLocks(f)
+	for _, h := range ls.HeldAt(nd) {
+		if h.Field != "streamMut" {
+			continue
+		}
+		// the stream whose failure is recorded: if it was operated on without the lock (a copy
+		// taken in an earlier critical section), it may have been replaced since - the set must
+		// then be under the identity test `copy == current stream`
+		var stale []ssa.Value
+		sx.AllInstrs(f, func(on sx.Node, in ssa.Instruction) {
+			op, ok := in.(*ssa.Call)
+			if !ok || !op.Call.IsInvoke() || (op.Call.Method.Name() != "RecvMsg" && op.Call.Method.Name() != "SendMsg") {
+				return
+			}
+			if !sx.All(sx.Origins(op.Call.Value), sx.IsFieldNamed("gorumsStream", sx.AnyOrigin)) {
+				return
+			}
+			held := false
+			for _, h2 := range ls.HeldAt(on) {
+				if h2.Field == "streamMut" {
+					held = true
+				}
+			}
+			if _, reach := sx.Reach(on, func(x sx.Node) bool { return x == nd }, sx.Query{}); reach && !held {
+				stale = append(stale, op.Call.Value)
+			}
+		})
+		if len(stale) == 0 {
 			l.OK("C09-W8", key, c.Pos(), "set while streamMut is held: the failed stream is still the current one")
 			return
 		}
+		guarded := true
+		for _, sv := range stale {
+			g := false
+			sx.AllInstrs(f, func(_ sx.Node, in ssa.Instruction) {
+				ifi, ok := in.(*ssa.If)
+				if !ok {
+					return
+				}
+				x, op, y, isCmp := sx.Comparison(ifi.Cond, sv)
+				if !isCmp || x != sv || (op != token.EQL && op != token.NEQ) {
+					return
+				}
+				if !sx.All(sx.Origins(y), sx.IsFieldNamed("gorumsStream", sx.AnyOrigin)) {
+					return
+				}
+				t, fl := sx.CondEdges(ifi)
+				e := t
+				if op == token.NEQ {
+					e = fl
+				}
+				if sx.EdgeDominates(f, e, nd) {
+					g = true
+				}
+			})
+			guarded = guarded && g
+		}
+		l.Check(guarded, "C09-W8", key, c.Pos(), "set under streamMut and under 'the stream operated on is still the current one'",
+			"the stream whose failure is recorded here was read in an earlier critical section and operated on without the lock; it may have been replaced since, and the set is not guarded by a comparison with the current stream: a late error of a replaced stream marks the new healthy stream broken")
+		return
 	}
 	noReader := false
 	sx.AllInstrs(f, func(_ sx.Node, in ssa.Instruction) {
@@ -866,6 +921,16 @@ func c09W9(l *core.Ledger, r *rt) {
 						l.Check(held || inWatcher, "C09-W9", key, u.Pos(), "called while the stream is being replaced / by the per-write watcher", "the stream is cancelled outside the stream replacement and outside the per-write watcher")
 						continue
 					}
+					if callee := u.Call.StaticCallee(); callee != nil && callee.Parent() != nil && inRepo(callee) {
+						// a function literal of this function invoked right here: judged by what it does with it
+						n--
+						for i, arg := range u.Call.Args {
+							if arg == v && i < len(callee.Params) {
+								uses(callee.Params[i], depth+1)
+							}
+						}
+						continue
+					}
 					l.Bad("C09-W9", key, u.Pos(), "the stream's cancel function is handed to "+sx.StaticCalleeName(&u.Call)+": an event other than the write in progress or a failed re-creation (e.g. the end of a finished call's context) can now end a healthy stream that later calls are using")
 				case *ssa.MakeClosure:
 					// captured by a closure of the same function: its calls are judged where they happen
@@ -879,6 +944,19 @@ func c09W9(l *core.Ledger, r *rt) {
 				case *ssa.ChangeType:
 					n--
 					uses(u, depth)
+				case *ssa.Go:
+					callee := u.Call.StaticCallee()
+					if callee == nil || callee.Parent() == nil || !inRepo(callee) {
+						l.Bad("C09-W9", key, u.Pos(), "the stream's cancel function is handed to a goroutine that is not a literal of this function")
+						continue
+					}
+					// the per-write watcher written with parameters instead of captured variables
+					n--
+					for i, arg := range u.Call.Args {
+						if arg == v && i < len(callee.Params) {
+							uses(callee.Params[i], depth+1)
+						}
+					}
 				case *ssa.Store:
 					if al, isAl := u.Addr.(*ssa.Alloc); isAl && u.Val == v {
 						// a local copy: every load of it, here and in the closures that capture it
